@@ -22,7 +22,8 @@
 //	               after every Write the harness overwrites the buffer it passed (the server must not keep it);
 //	               a Flush that returns an error adds "fe"
 //	write results: per w action  <n> | b (ErrBodyNotAllowed) | c (more than declared Content-Length) | e (other error);
-//	               "-" for HEAD requests (not compared)
+//	               (also for HEAD requests: there the bufio.Writer reports io.ErrShortWrite — printed "e" — once the flush
+//	               that sends the HEADERS has returned 0 bytes written)
 //
 // The automatically added date is printed as "@"; a sniffed content-type (http.DetectContentType, an
 // external function) is printed as "@" (scripts only ever set the values x/y, t/h and "").
@@ -354,7 +355,7 @@ func run(head bool, acts []action) string {
 		fs = "-"
 	}
 	ws := strings.Join(wres, ",")
-	if ws == "" || head {
+	if ws == "" {
 		ws = "-"
 	}
 	return fs + "|" + ws
